@@ -280,38 +280,42 @@ Definition step (st : lstate) (c : byte) (rest : text) : step_res :=
   | SStr => step_str st c rest
   end.
 
-(* one input file: [d] bounds the include nesting still available, [ptr] = include_stack_ptr *)
+(* the scanning loop over one input file; [rec] lexes an included file one level deeper.
+   [ptr] = include_stack_ptr, [n] bounds the number of flex matches (each consumes at least one byte) *)
+Fixpoint lex_loop (rec : N -> lstate -> text -> lstate * option lex_end) (files : text -> option text) (ptr : N)
+                  (n : nat) (st : lstate) (bs : text) {struct n} : lstate * option lex_end :=
+  match n with
+  | O => (st, Some (EndHang S_HANG_FUEL))
+  | S n' =>
+      match bs with
+      | [] => (st, None)                                      (* <<EOF>> of this file *)
+      | c :: rest =>
+          match step st c rest with
+          | StCont st' rest' => lex_loop rec files ptr n' st' rest'
+          | StEnd st' e => (st', Some e)
+          | StInclude st' name rest' =>
+              if include_refuse_at <=? ptr then (st', Some (EndExit S_INCL_DEPTH))
+              else if (max_include_depth <=? ptr) || (max_include_depth <=? ptr + 1)
+              then (st', Some (EndMem S_MEM_INCLSTACK))       (* include_stack[ptr], linenum[ptr+1], filename[ptr+1] *)
+              else
+                match files name with
+                | None => (st', Some (EndExit S_INCL_OPEN))
+                | Some content =>
+                    match rec (ptr + 1) (set_sc st' SInit) content with
+                    | (st'', Some e) => (st'', Some e)
+                    | (st'', None) => lex_loop rec files ptr n' st'' rest'   (* popped: same start condition goes on *)
+                    end
+                end
+          end
+      end
+  end.
+
+(* one input file: [d] bounds the include nesting still available *)
 Fixpoint lex_file (d : nat) (files : text -> option text) (ptr : N) (st : lstate) (bs : text) {struct d}
   : lstate * option lex_end :=
   match d with
   | O => (st, Some (EndHang S_HANG_DEPTH))
-  | S d' =>
-      (fix loop (n : nat) (st : lstate) (bs : text) {struct n} : lstate * option lex_end :=
-         match n with
-         | O => (st, Some (EndHang S_HANG_FUEL))
-         | S n' =>
-             match bs with
-             | [] => (st, None)                                      (* <<EOF>> of this file *)
-             | c :: rest =>
-                 match step st c rest with
-                 | StCont st' rest' => loop n' st' rest'
-                 | StEnd st' e => (st', Some e)
-                 | StInclude st' name rest' =>
-                     if include_refuse_at <=? ptr then (st', Some (EndExit S_INCL_DEPTH))
-                     else if (max_include_depth <=? ptr) || (max_include_depth <=? ptr + 1)
-                     then (st', Some (EndMem S_MEM_INCLSTACK))       (* include_stack[ptr], linenum[ptr+1], filename[ptr+1] *)
-                     else
-                       match files name with
-                       | None => (st', Some (EndExit S_INCL_OPEN))
-                       | Some content =>
-                           match lex_file d' files (ptr + 1) (set_sc st' SInit) content with
-                           | (st'', Some e) => (st'', Some e)
-                           | (st'', None) => loop n' st'' rest'      (* popped: same start condition goes on *)
-                           end
-                       end
-                 end
-             end
-         end) (S (length bs)) st bs
+  | S d' => lex_loop (lex_file d' files) files ptr (S (length bs)) st bs
   end.
 
 Definition lex_init : lstate := mkL SInit [] 0 0 [].
@@ -600,63 +604,71 @@ Section Load.
     | Some s => v <- do_strtolong c s ;; Ok (wrap32 v)
     end.
 
-  (* statements.  [parse_stmt] is entered after the statement keyword has been shifted. *)
+  Definition is_matchpos (t : token) : bool := match t with TMatchpos => true | _ => false end.
+
+  (* the statements without a sub-block, entered after their keyword [k] has been shifted; [n] is fuel for the
+     interpretation lists.  Forms that bison reduces only after a look-ahead fetch that token (via [next] inside
+     parse_*_interps) BEFORE the conversions of makePreStmt run. *)
+  Definition parse_simple (n : nat) (c : cfg) (k : kw) (r : list token) : outcome (pstmt * list token) :=
+    match k with
+    | TOK_EXPECT => ' (s, r1) <- expect_str c r ;; Ok (PExpect s, r1)
+    | TOK_SEND => ' (s, r1) <- expect_str c r ;; Ok (PSend s, r1)
+    | TOK_DELAY => ' (s, r1) <- expect_num c r ;; _ <- do_time c s ;; Ok (PDelay s, r1)
+    | TOK_SETPLUGSTATE =>
+        ' (t1, r1) <- next r ;;
+        match t1 with
+        | Some (TStr lit) =>
+            r2 <- expect_tok c is_matchpos r1 ;;
+            ' (m2, r3) <- expect_num c r2 ;;
+            ' (il, r4) <- parse_state_interps n c r3 [] ;;
+            mp2 <- conv_mp c (Some m2) ;;
+            Ok (PSetPlugState (Some lit) (-1) mp2 il, r4)
+        | Some TMatchpos =>
+            ' (ma, r2) <- expect_num c r1 ;;
+            ' (t2, r3) <- next r2 ;;
+            match t2 with
+            | Some TMatchpos =>
+                ' (mb, r4) <- expect_num c r3 ;;
+                ' (il, r5) <- parse_state_interps n c r4 [] ;;
+                mp1 <- conv_mp c (Some ma) ;; mp2 <- conv_mp c (Some mb) ;;
+                Ok (PSetPlugState None mp1 mp2 il, r5)
+            | _ =>
+                ' (il, r4) <- parse_state_interps n c r2 [] ;;
+                mp2 <- conv_mp c (Some ma) ;;
+                Ok (PSetPlugState None (-1) mp2 il, r4)
+            end
+        | _ => fail c S_PARSE
+        end
+    | TOK_SETRESULT =>
+        r1 <- expect_tok c is_matchpos r ;;
+        ' (ma, r2) <- expect_num c r1 ;;
+        r3 <- expect_tok c is_matchpos r2 ;;
+        ' (mb, r4) <- expect_num c r3 ;;
+        ' (il, r5) <- parse_result_interps n c r4 [] ;;
+        match il with
+        | [] => fail c S_PARSE
+        | _ => mp1 <- conv_mp c (Some ma) ;; mp2 <- conv_mp c (Some mb) ;; Ok (PSetResult mp1 mp2 il, r5)
+        end
+    | _ => fail c S_PARSE
+    end.
+
+  Definition is_block_kw (k : kw) : bool :=
+    match k with TOK_FOREACHNODE | TOK_FOREACHPLUG | TOK_IFOFF | TOK_IFON => true | _ => false end.
+
+  (* stmt_list up to and including the closing brace (at least one statement) *)
   Fixpoint parse_stmts (n : nat) (c : cfg) (toks : list token) (acc : list pstmt) {struct n}
     : outcome (list pstmt * list token) :=
     match n with
     | O => Hang S_HANG_FUEL
     | S n' =>
-        (* inside `{ stmt_list`: TOK_END closes the block if at least one statement was read *)
         ' (t, r) <- next toks ;;
         match t with
         | Some TEnd => match acc with [] => fail c S_PARSE | _ => Ok (acc, r) end
-        | Some (TKw TOK_EXPECT) => ' (s, r1) <- expect_str c r ;; parse_stmts n' c r1 (acc ++ [PExpect s])
-        | Some (TKw TOK_SEND) => ' (s, r1) <- expect_str c r ;; parse_stmts n' c r1 (acc ++ [PSend s])
-        | Some (TKw TOK_DELAY) => ' (s, r1) <- expect_num c r ;; _ <- do_time c s ;; parse_stmts n' c r1 (acc ++ [PDelay s])
-        | Some (TKw TOK_SETPLUGSTATE) =>
-            ' (t1, r1) <- next r ;;
-            match t1 with
-            | Some (TStr lit) =>
-                r2 <- expect_tok c (fun t => match t with TMatchpos => true | _ => false end) r1 ;;
-                ' (m2, r3) <- expect_num c r2 ;;
-                ' (il, r4) <- parse_state_interps n' c r3 [] ;;
-                mp2 <- conv_mp c (Some m2) ;;
-                parse_stmts n' c r4 (acc ++ [PSetPlugState (Some lit) (-1) mp2 il])
-            | Some TMatchpos =>
-                ' (ma, r2) <- expect_num c r1 ;;
-                ' (t2, r3) <- next r2 ;;
-                match t2 with
-                | Some TMatchpos =>
-                    ' (mb, r4) <- expect_num c r3 ;;
-                    ' (il, r5) <- parse_state_interps n' c r4 [] ;;
-                    mp1 <- conv_mp c (Some ma) ;; mp2 <- conv_mp c (Some mb) ;;
-                    parse_stmts n' c r5 (acc ++ [PSetPlugState None mp1 mp2 il])
-                | _ =>
-                    ' (il, r4) <- parse_state_interps n' c r2 [] ;;
-                    mp2 <- conv_mp c (Some ma) ;;
-                    parse_stmts n' c r4 (acc ++ [PSetPlugState None (-1) mp2 il])
-                end
-            | _ => fail c S_PARSE
-            end
-        | Some (TKw TOK_SETRESULT) =>
-            r1 <- expect_tok c (fun t => match t with TMatchpos => true | _ => false end) r ;;
-            ' (ma, r2) <- expect_num c r1 ;;
-            r3 <- expect_tok c (fun t => match t with TMatchpos => true | _ => false end) r2 ;;
-            ' (mb, r4) <- expect_num c r3 ;;
-            ' (il, r5) <- parse_result_interps n' c r4 [] ;;
-            match il with
-            | [] => fail c S_PARSE
-            | _ => mp1 <- conv_mp c (Some ma) ;; mp2 <- conv_mp c (Some mb) ;;
-                   parse_stmts n' c r5 (acc ++ [PSetResult mp1 mp2 il])
-            end
-        | Some (TKw TOK_FOREACHNODE) =>
-            r1 <- expect_tok c is_begin r ;; ' (b, r2) <- parse_stmts n' c r1 [] ;; parse_stmts n' c r2 (acc ++ [PBlock TOK_FOREACHNODE b])
-        | Some (TKw TOK_FOREACHPLUG) =>
-            r1 <- expect_tok c is_begin r ;; ' (b, r2) <- parse_stmts n' c r1 [] ;; parse_stmts n' c r2 (acc ++ [PBlock TOK_FOREACHPLUG b])
-        | Some (TKw TOK_IFOFF) =>
-            r1 <- expect_tok c is_begin r ;; ' (b, r2) <- parse_stmts n' c r1 [] ;; parse_stmts n' c r2 (acc ++ [PBlock TOK_IFOFF b])
-        | Some (TKw TOK_IFON) =>
-            r1 <- expect_tok c is_begin r ;; ' (b, r2) <- parse_stmts n' c r1 [] ;; parse_stmts n' c r2 (acc ++ [PBlock TOK_IFON b])
+        | Some (TKw k) =>
+            if is_block_kw k then
+              r1 <- expect_tok c is_begin r ;; ' (b, r2) <- parse_stmts n' c r1 [] ;; parse_stmts n' c r2 (acc ++ [PBlock k b])
+            else
+              ' (s, r1) <- parse_simple n' c k r ;; parse_stmts n' c r1 (acc ++ [s])
         | _ => fail c S_PARSE
         end
     end.
